@@ -17,6 +17,7 @@ use ::embedded_io::{BufRead, Read, ReadReady, Write as EioWrite};
 const BOUNCE: u64 = 0x1_0000_0000;
 const RXQ: usize = 0;
 const TXQ: usize = 1;
+const DMA_BYTES: usize = 64;
 
 struct Dev {
     /// device-to-driver regions (used rings) in allocation order: [receiveq, transmitq]
@@ -50,7 +51,9 @@ struct CHal;
 unsafe impl Hal for CHal {
     fn dma_alloc(pages: usize, direction: BufferDirection, _ap: bool) -> (PhysAddr, NonNull<u8>) {
         assert!(pages == 1);
-        let layout = alloc::alloc::Layout::from_size_align(PAGE_SIZE, PAGE_SIZE).unwrap();
+        // Only the first DMA_BYTES of the page exist as an object: the two-entry rings need 42 / 22 bytes; any access
+        // beyond is reported by CBMC as out of bounds (so this cannot hide anything) and the model stays small.
+        let layout = alloc::alloc::Layout::from_size_align(DMA_BYTES, PAGE_SIZE).unwrap();
         let p = unsafe { alloc::alloc::alloc_zeroed(layout) };
         unsafe {
             match direction {
@@ -62,7 +65,7 @@ unsafe impl Hal for CHal {
         (p as u64 + BOUNCE, NonNull::new(p).unwrap())
     }
     unsafe fn dma_dealloc(_paddr: PhysAddr, vaddr: NonNull<u8>, _pages: usize, _ap: bool) -> i32 {
-        let layout = alloc::alloc::Layout::from_size_align(PAGE_SIZE, PAGE_SIZE).unwrap();
+        let layout = alloc::alloc::Layout::from_size_align(DMA_BYTES, PAGE_SIZE).unwrap();
         unsafe { alloc::alloc::dealloc(vaddr.as_ptr(), layout) };
         0
     }
@@ -280,9 +283,9 @@ fn c15_rx_second_chunk() {
     unsafe { assert!(DEV.rx_shares == 3 && DEV.tx_shares == 0); }
 }
 
-/// C15 bounded stand-in (real code): one chunk of 3 symbolic bytes taken by ack_interrupt (symbolic interrupt
-/// status) or read_ready, then read (2-byte buffer), fill_buf + consume(1); nothing is posted until the next
-/// blocking read, which posts and then finds the second chunk (the device answers at once).
+/// C15 bounded stand-in (real code): one chunk of 3 symbolic bytes taken in by ack_interrupt (symbolic interrupt
+/// status) or else by read_ready; then read (2-byte buffer), fill_buf (twice) + consume(1) return the bytes exactly
+/// once and in order; none of these calls posts a buffer.
 #[kani::proof]
 #[kani::unwind(20)]
 fn c15_rx_read_bufread() {
@@ -314,17 +317,32 @@ fn c15_rx_read_bufread() {
     }
     c.consume(1);
     check_inv(&c);
-    assert!(c.read_ready() == Ok(false) && c.recv(false) == Ok(None), "C15: byte duplicated after consume");
-    unsafe { assert!(DEV.rx_shares == 1, "C15: consume / read_ready / peek must not post"); }
-    // a zero-length read does nothing
+    assert!(c.read_ready() == Ok(false), "C15: byte duplicated after consume");
+    unsafe { assert!(DEV.rx_shares == 1, "C15: consume / read_ready must not post"); }
+}
+
+/// C15 bounded stand-in (real code): a blocking `read` that finds nothing pending posts the buffer (exactly once) and
+/// returns the next chunk (the device answers at once); an empty read does nothing.
+#[kani::proof]
+#[kani::unwind(20)]
+fn c15_rx_read_reposts() {
+    let mut c = mk(0);
+    let t0 = c.receive_token.unwrap();
+    let b0: u8 = kani::any();
+    c.queue_buf_rx[0] = b0;
+    dev_used_push(RXQ, t0, 1);
+    let mut buf = [0u8; 2];
+    assert!(c.read(&mut buf) == Ok(1) && buf[0] == b0, "C15: first chunk through read");
+    assert!(c.receive_token.is_none() && c.cursor == c.pending_len);
+    unsafe { assert!(DEV.rx_shares == 1, "C15: read posted although it had data"); }
     let mut e: [u8; 0] = [];
     assert!(c.read(&mut e) == Ok(0));
-    unsafe { assert!(DEV.rx_shares == 1); }
-    // next blocking read: posts (token 0 again: the descriptor was recycled), the device answers at once
+    unsafe { assert!(DEV.rx_shares == 1, "C15: empty read posted a buffer"); }
+    // next blocking read: posts (token 0 again: the descriptor was recycled); the device answers at once
     let d0: u8 = kani::any();
     c.queue_buf_rx[0] = d0;
     dev_used_push(RXQ, 0, 1);
-    assert!(c.read(&mut buf) == Ok(1) && buf[0] == d0 && buf[1] == b1, "C15: second chunk through read");
+    assert!(c.read(&mut buf) == Ok(1) && buf[0] == d0, "C15: second chunk through read");
     unsafe { assert!(DEV.rx_shares == 2, "C15: exactly one re-post"); }
     check_inv(&c);
 }
@@ -407,25 +425,55 @@ fn c15_overlong_recv_panics() {
     let _ = c.recv(true);
 }
 
+/// A console whose receive state is (cursor, pending_len) and nothing else: `consume` touches only these two fields,
+/// so the queues, the transport and the buffer are left as zero bytes and never used or dropped.  Every state with
+/// cursor <= pending_len <= 4096 is reachable by the real code (see c15_rx_read_bufread for one).
+fn with_rx_state(cursor: usize, pending_len: usize, f: impl FnOnce(&mut Con)) {
+    let mut m = core::mem::MaybeUninit::<Con>::zeroed();
+    let c = unsafe { &mut *m.as_mut_ptr() };
+    c.cursor = cursor;
+    c.pending_len = pending_len;
+    f(c);
+}
+
+/// C15 K-complete (loop-free, every state cursor <= pending_len <= 4096, every amt within the pending data):
+/// `consume(amt)` advances the cursor by exactly amt and changes nothing else.
+#[kani::proof]
+fn c15_consume_ok() {
+    let (cursor, pending_len, amt): (usize, usize, usize) = (kani::any(), kani::any(), kani::any());
+    kani::assume(cursor <= pending_len && pending_len <= PAGE_SIZE && amt <= pending_len - cursor);
+    with_rx_state(cursor, pending_len, |c| {
+        c.consume(amt);
+        assert!(c.cursor == cursor + amt && c.pending_len == pending_len && c.receive_token.is_none(), "C15: consume");
+    });
+}
+
+/// C15 K-complete (loop-free): an amount beyond the pending data (documented caller error), as long as
+/// cursor + amt does not exceed usize::MAX, ends in the clean panic of the guard.
+#[kani::proof]
+#[kani::should_panic]
+fn c15_consume_too_much_panics() {
+    let (cursor, pending_len, amt): (usize, usize, usize) = (kani::any(), kani::any(), kani::any());
+    kani::assume(cursor <= pending_len && pending_len <= PAGE_SIZE);
+    kani::assume(amt > pending_len - cursor && amt <= usize::MAX - cursor);
+    with_rx_state(cursor, pending_len, |c| c.consume(amt));
+}
+
 /// SUSPECTED DEFECT (expected to FAIL on the unchanged tree): `consume(amt)` guards with
 /// `assert!(self.cursor + amt <= self.pending_len)`; the addition overflows for amt > usize::MAX - cursor.  With
-/// overflow checks (debug) this is an arithmetic-overflow panic; without them (release) the sum wraps, the guard
-/// passes and `self.cursor += amt` moves the cursor BACKWARDS: bytes already handed out are handed out again (C15:
-/// duplicated).  The harness states the guard's intent: a call that returns has advanced the cursor by `amt`.
+/// overflow checks (debug, and Kani) this is an arithmetic-overflow panic; without them (release profile) the sum
+/// wraps, the guard passes and `self.cursor += amt` moves the cursor BACKWARDS: bytes already handed out are handed
+/// out again (C15: duplicated).  E.g. cursor = 2, pending_len = 3, amt = usize::MAX: guard 1 <= 3, cursor becomes 1.
+/// The harness states the guard's intent: a call that returns has not moved the cursor backwards.
 #[kani::proof]
-#[kani::unwind(20)]
 fn c15_defect_consume_overflow() {
-    let mut c = mk(0);
-    let t0 = c.receive_token.unwrap();
-    dev_used_push(RXQ, t0, 3);
-    assert!(c.read_ready() == Ok(true));
-    c.consume(2);
-    let before = c.cursor;
-    let amt: usize = kani::any();
-    // far more than the one pending byte (documented caller error), in the range where cursor + amt exceeds usize::MAX
-    kani::assume(amt >= usize::MAX - 1);
-    c.consume(amt);                 // must not return (clean panic) - and must not wrap
-    assert!(c.cursor >= before, "C15: consume moved the cursor backwards (bytes will be delivered twice)");
+    let (cursor, pending_len, amt): (usize, usize, usize) = (kani::any(), kani::any(), kani::any());
+    kani::assume(cursor <= pending_len && pending_len <= PAGE_SIZE);
+    kani::assume(amt > usize::MAX - cursor);
+    with_rx_state(cursor, pending_len, |c| {
+        c.consume(amt);
+        assert!(c.cursor >= cursor, "C15: consume moved the cursor backwards (bytes will be delivered twice)");
+    });
 }
 
 /// SUSPECTED DEFECT (expected to FAIL on the unchanged tree): `fmt::Write::write_str("")` passes an empty buffer to
@@ -441,42 +489,3 @@ fn c15_defect_write_str_empty() {
     unsafe { assert!(DEV.tx_shares == 0 || DEV.tx_len > 0, "C15: a zero-length buffer was placed on the transmit queue"); }
 }
 
-// ---- TEMP timing experiments ----
-struct CHalSmall;
-unsafe impl Hal for CHalSmall {
-    fn dma_alloc(pages: usize, direction: BufferDirection, _ap: bool) -> (PhysAddr, NonNull<u8>) {
-        assert!(pages == 1);
-        let layout = alloc::alloc::Layout::from_size_align(64, 64).unwrap();
-        let p = unsafe { alloc::alloc::alloc_zeroed(layout) };
-        unsafe {
-            match direction {
-                BufferDirection::DeviceToDriver => { assert!(DEV.n_used < 2); DEV.used[DEV.n_used] = p; DEV.n_used += 1; }
-                BufferDirection::DriverToDevice => { assert!(DEV.n_drv < 2); DEV.drv[DEV.n_drv] = p; DEV.n_drv += 1; }
-                BufferDirection::Both => panic!("verif: legacy layout not used here"),
-            }
-        }
-        (p as u64 + BOUNCE, NonNull::new(p).unwrap())
-    }
-    unsafe fn dma_dealloc(_paddr: PhysAddr, vaddr: NonNull<u8>, _pages: usize, _ap: bool) -> i32 {
-        let layout = alloc::alloc::Layout::from_size_align(64, 64).unwrap();
-        unsafe { alloc::alloc::dealloc(vaddr.as_ptr(), layout) };
-        0
-    }
-    unsafe fn mmio_phys_to_virt(_paddr: PhysAddr, _size: usize) -> NonNull<u8> { NonNull::dangling() }
-    unsafe fn share(buffer: NonNull<[u8]>, _direction: BufferDirection, _ap: bool) -> PhysAddr { buffer.as_ptr() as *mut u8 as u64 + BOUNCE }
-    unsafe fn unshare(_paddr: PhysAddr, _buffer: NonNull<[u8]>, _direction: BufferDirection, _ap: bool) {}
-}
-#[kani::proof]
-#[kani::unwind(20)]
-fn c15_t_new_only() {
-    let c = mk(0);
-    assert!(c.cursor == 0);
-}
-#[kani::proof]
-#[kani::unwind(20)]
-fn c15_t_new_small() {
-    dev_reset();
-    let t = CTransport { device_features: 0, isr: 0, status: 0, emerg: 0, cols: 0, rows: 0 };
-    let c = VirtIOConsole::<CHalSmall, CTransport>::new(t).unwrap();
-    assert!(c.cursor == 0);
-}
